@@ -31,7 +31,8 @@ warnings.filterwarnings('ignore')
 
 STRICT = ('simplify', 'simplify_series', 'simplify_parallel', 'remove_dangling', 'remove_disconnected',
           'renumber', 'copy')
-COMPONENTWISE = ('expand', 's_model', 'ac_model', 'noise_model_killed', 'replace_switches', 'subs')
+COMPONENTWISE = ('expand', 's_model', 'ac_model', 'noise_model_killed', 'noise_model', 'replace_switches',
+                 'replace_switches_before', 'subs')
 
 
 # =========================================================================== worker (real Lcapy)
@@ -76,8 +77,19 @@ def worker_main():
                 out['I'][name] = None
         return out
 
-    def canon(cct, s0):
-        """netlist as a list of canonical element tuples (name, nodes, kw, val, ic, extra)"""
+    def tocomplex(x, subs):
+        """exact value a+bj (a, b rational) of an expression after the substitution `subs`; None otherwise"""
+        x = sympy.sympify(x).subs(subs)
+        x = sympy.simplify(sympy.expand_complex(sympy.cancel(sympy.together(x))))
+        re, im = x.as_real_imag()
+        re, im = sympy.nsimplify(re), sympy.nsimplify(im)
+        if re.is_Rational and im.is_Rational:
+            return '%s,%s' % (re, im)
+        return None
+
+    def canon(cct, s0, csubs=None):
+        """netlist as a list of canonical element tuples (name, nodes, kw, val, ic, extra); dummy nodes
+        (`_nodeanon<N>`, numbered per Circuit object) are renamed `_d1, _d2, …` in order of appearance"""
         import hashlib
         from lcapy import expr
         out = []
@@ -97,6 +109,8 @@ def worker_main():
 
             def ev(a):
                 try:
+                    if csubs is not None:
+                        return tocomplex(expr(a).sympy, csubs)
                     r = tofrac(expr(a).sympy, s0)
                     return None if r == 'symbolic' else r
                 except Exception:   # noqa
@@ -115,6 +129,12 @@ def worker_main():
                     rest = [r for r in rest if str(r) != '0']
                 extra += [str(r).replace(' ', '') for r in rest]
             out.append([nm, list(elt.node_names), kw, val, ic, extra])
+        ren = {}
+        for item in out:
+            for i, n in enumerate(item[1]):
+                if n.startswith('_nodeanon'):
+                    ren.setdefault(n, '_d%d' % (len(ren) + 1))
+                    item[1][i] = ren[n]
         return out
 
     def apply(cct, rw):
@@ -124,8 +144,10 @@ def worker_main():
             return getattr(cct, op)(**kw)
         if op == 'renumber':
             return cct.renumber(kw.get('node_map'))
-        if op in ('copy', 'expand', 's_model', 'ac_model'):
+        if op in ('copy', 'expand', 's_model', 'ac_model', 'noise_model'):
             return getattr(cct, op)()
+        if op == 'replace_switches_before':
+            return cct.replace_switches_before(kw.get('t', 0))
         if op == 'noise_model_killed':
             n = cct.noise_model()
             noise = [name for name, e in n.elements.items() if e.type == 'V' and e.keyword[1] == 'noise']
@@ -185,6 +207,19 @@ def worker_main():
                 new = apply(src, rw)
                 r['canon'] = canon(new, s0)
                 r['text'] = str(new).split('\n')
+                kwa = rw.get('kwargs', {})
+                if rw['op'] == 'replace_switches' and 't2' in kwa:
+                    # the same instant seen from just before, and another instant with no event in between
+                    fresh = Circuit('\n'.join(case['lines']))
+                    r['before_canon'] = canon(fresh.replace_switches_before(kwa['t']), s0)
+                    r['t2_canon'] = canon(fresh.replace_switches(kwa['t2']), s0)
+                if rw['op'] == 'ac_model':
+                    # ac_model(omega) against s_model at s = j omega, both at omega = w0 (exact complex values)
+                    from lcapy import omega as lomega
+                    w0 = sympy.Rational(*kwa.get('w0', [3, 2]))
+                    fresh = Circuit('\n'.join(case['lines']))
+                    r['ac_at_w0'] = canon(new, s0, csubs={lomega.sympy: w0, ssym: sympy.I * w0})
+                    r['s_at_jw0'] = canon(fresh.s_model(), s0, csubs={ssym: sympy.I * w0})
                 try:
                     r['ivp'] = bool(new.is_IVP)
                 except Exception:   # noqa
@@ -194,7 +229,7 @@ def worker_main():
                 r['errmsg'] = str(ex)[:120]
                 res['results'].append(r)
                 continue
-            if 'orig_sol' in res or case.get('solve_new'):
+            if ('orig_sol' in res or case.get('solve_new')) and not rw.get('no_solve'):
                 try:
                     r['sol'] = solve(new, pts)
                 except Exception as ex:
@@ -455,6 +490,57 @@ def gen_circuit(rng, idx):
             return ck
 
 
+def gen_switch_case(rng, quick):
+    """a source, a resistive/reactive ladder and one or two switches (normally open / normally closed /
+    unmarked) with distinct activation times; replaced at instants below, between and above the events,
+    at an event, and seen from just before each of these instants"""
+    T = sorted(rng.sample(range(1, 9), 2))
+    kinds = [rng.choice(['no', 'nc', 'no', '']), rng.choice(['no', 'nc'])]
+    two = rng.random() < 0.6
+    lines = ['V1 1 0 %s %d' % (rng.choice(['dc', 'step']), rng.randint(1, 9)),
+             'R1 1 2 %s' % fstr(rv(rng)),
+             ('SW1 2 3 %s %d' % (kinds[0], T[0])).replace('  ', ' '),
+             '%s 3 0 %s' % (rng.choice(['R2', 'C1', 'L1']), fstr(rv(rng))),
+             'R3 3 0 %s' % fstr(rv(rng))]
+    if two:
+        lines += ['SW2 3 4 %s %d' % (kinds[1], T[1]), 'R4 4 0 %s' % fstr(rv(rng))]
+    events = T if two else T[:1]
+    # instants with no event: (t, another instant of the same inter-event interval)
+    cuts = [Fraction(0)] + [Fraction(e) for e in events] + [Fraction(events[-1] + 4)]
+    rws = []
+    for lo, hi in zip(cuts, cuts[1:]):
+        a = lo + (hi - lo) * Fraction(rng.randint(1, 4), 10)
+        b = lo + (hi - lo) * Fraction(rng.randint(5, 9), 10)
+        rws.append({'op': 'replace_switches', 'kwargs': {'t': fstr(a), 't2': fstr(b)}, 'event': False})
+        rws.append({'op': 'replace_switches_before', 'kwargs': {'t': fstr(a)}})
+    for e in events:
+        rws.append({'op': 'replace_switches', 'kwargs': {'t': e, 't2': fstr(Fraction(e) + Fraction(1, 3))}, 'event': True})
+        rws.append({'op': 'replace_switches_before', 'kwargs': {'t': e}})
+    rws += [{'op': 's_model', 'kwargs': {}}, {'op': 'copy', 'kwargs': {}}]
+    if quick:
+        rws = rng.sample(rws, min(6, len(rws)))
+    return {'flavour': 'switches', 'lines': lines, 'features': [{'part': 'switches:%d' % len(events)}], 'rewrites': rws}
+
+
+def gen_opamp_case(rng, quick):
+    """an inverting / non-inverting amplifier around `E… opamp` with differential gain, optional
+    common-mode gain and optional (possibly zero) output resistance"""
+    ad = rng.randint(2, 9)
+    tail = rng.choice([[], [fstr(Fraction(rng.randint(0, 2)))], [fstr(Fraction(rng.randint(0, 2))), fstr(Fraction(rng.randint(0, 4), rng.randint(1, 2)))]])
+    inv = rng.random() < 0.5
+    lines = ['V1 1 0 %s %d' % (rng.choice(['dc', 'step']), rng.randint(1, 9)),
+             'R1 1 2 %s' % fstr(rv(rng)),
+             ' '.join(['E1 3 0 opamp'] + (['0', '2'] if inv else ['2', '4']) + [str(ad)] + tail),
+             'R2 %s 3 %s' % ('2' if inv else '4', fstr(rv(rng))),
+             'R3 3 0 %s' % fstr(rv(rng))]
+    if not inv:
+        lines += ['R4 4 0 %s' % fstr(rv(rng)), 'R5 2 0 %s' % fstr(rv(rng))]
+    if rng.random() < 0.4:
+        lines.append('C1 3 0 %s' % fstr(rv(rng)))
+    rws = [{'op': 'expand', 'kwargs': {}}, {'op': 'copy', 'kwargs': {}}, {'op': 'noise_model_killed', 'kwargs': {}}]
+    return {'flavour': 'opamp', 'lines': lines, 'features': [{'part': 'opamp:args=%d' % (1 + len(tail))}], 'rewrites': rws}
+
+
 def val_text(e, s0):
     """(lcapy text, exact value at s0) of the main value; Y and Z values depend on s in step/ivp"""
     return e['val']
@@ -518,6 +604,34 @@ def parse_model_net(txt):
     return out
 
 
+def blank_sources(canon, orig_canon, op):
+    """values of the independent sources are arbitrary signal expressions that the element-level model does
+    not transform (s_model re-emits them as Laplace expressions, noise sources are symbolic): they are compared
+    by the solve-and-compare oracle, here only by name and nodes"""
+    src = {x[0] for x in orig_canon if x[0][0] in 'VI'}
+    out = []
+    for x in canon:
+        if x[0] in src or (op == 'noise_model' and x[0].startswith('Vn')):
+            out.append([x[0], x[1], x[2] if x[0].startswith('Vn') else '', None, None, []])
+        else:
+            out.append(x)
+    return out
+
+
+def raw_line_set(lines):
+    import re
+    ren = {}
+    out = []
+    for ln in lines:
+        toks = ln.split(';')[0].split()
+        toks = [ren.setdefault(x, '_d%d' % (len(ren) + 1)) if x.startswith('_nodeanon') else x for x in toks]
+        while len(toks) > 1 and toks[-1] == '0' and toks[0][0] == 'E' and len(toks) > 6:
+            toks = toks[:-1]          # trailing default arguments (Ac = 0, Ro = 0) of an E line
+        if toks:
+            out.append(tuple(toks))
+    return sorted(out)
+
+
 def key_of(canon):
     return tuple(sorted((c[0], tuple(c[1]), c[2], c[3], c[4], tuple(c[5])) for c in canon))
 
@@ -553,8 +667,11 @@ def gen_rewrites(rng, ck, quick):
             small = [str(i) for i in range(1, len(nodes) + 1) if str(i) not in keys]
             if len(small) >= len(keys):
                 pool.append({'op': 'renumber', 'kwargs': {'node_map': dict(zip(keys, rng.sample(small, len(keys))))}, 'must': True})
-    for op in ('copy', 'expand', 's_model', 'noise_model_killed'):
+    for op in ('copy', 'expand', 'noise_model_killed'):
         pool.append({'op': op, 'kwargs': {}})
+    pool.append({'op': 's_model', 'kwargs': {}, 'must': True})
+    pool.append({'op': 'ac_model', 'kwargs': {'w0': [rng.randint(1, 9), rng.randint(1, 4)]}, 'no_solve': True})
+    pool.append({'op': 'noise_model', 'kwargs': {}, 'no_solve': True})
     pool.append({'op': 'replace_switches', 'kwargs': {'t': rng.randint(0, 5)}})
     # subs: a variant with symbolic values
     syms = {}
@@ -686,9 +803,10 @@ def became_symbolic(orig_sol, new_sol, ren, retained_nodes):
 
 
 def run(chk, replay=None):
-    broken = chk.lean(['Lcapy/Props/C05.lean'],
-                      helper_files=['Lcapy/Proofs/Rewrite.lean', 'Lcapy/Model/Rewrite.lean', 'Lcapy/Spec/Retained.lean',
-                                    'Lcapy/Spec/Laws.lean', 'Lcapy/Driver/C05.lean'],
+    broken = chk.lean(['Lcapy/Props/C05.lean', 'Lcapy/Props/C05CW.lean'],
+                      helper_files=['Lcapy/Proofs/Rewrite.lean', 'Lcapy/Proofs/RewriteCW.lean', 'Lcapy/Proofs/RewriteCWSteps.lean',
+                                    'Lcapy/Model/Rewrite.lean', 'Lcapy/Model/RewriteCW.lean', 'Lcapy/Spec/Retained.lean',
+                                    'Lcapy/Spec/PortRel.lean', 'Lcapy/Spec/Laws.lean', 'Lcapy/Driver/C05.lean'],
                       leanchecker=(chk.tier == 'thorough'))
     drv = chk.get_driver()
     rng = chk.rng
@@ -727,6 +845,12 @@ def run(chk, replay=None):
             pts = [[rng.randint(1, 40), rng.randint(1, 9)], [rng.randint(41, 90), rng.randint(1, 9)]]
             cases.append({'id': cid, 'lines': [lcapy_line(e) for e in ck['elts']], 'rewrites': gen_rewrites(rng, ck, quick),
                           'pts': pts, 's0': pts[0], 'elts': ck['elts'], 'features': ck['features'], 'flavour': ck['flavour']})
+            cid += 1
+        for k in range(6 if quick else 24):
+            ck = gen_switch_case(rng, quick) if k % 2 == 0 else gen_opamp_case(rng, quick)
+            pts = [[rng.randint(1, 40), rng.randint(1, 9)], [rng.randint(41, 90), rng.randint(1, 9)]]
+            cases.append({'id': cid, 'lines': ck['lines'], 'rewrites': ck['rewrites'], 'pts': pts, 's0': pts[0], 'elts': None,
+                          'features': ck['features'], 'flavour': ck['flavour']})
             cid += 1
     # ---- run the real Lcapy under every hash seed
     results = run_workers([{k: c[k] for k in ('id', 'lines', 'rewrites', 'pts', 's0')} for c in cases], seeds)
@@ -787,14 +911,42 @@ def run(chk, replay=None):
                               else {key_of(parse_model_net(model_raw)): []})
             elif op == 'copy':
                 model_outs = {key_of(orig_canon): []}
+            elif op in ('s_model', 'noise_model_killed', 'noise_model', 'replace_switches', 'replace_switches_before'):
+                req = {'s_model': 'rw.smodel %s' % fstr(Fraction(c['s0'][0], c['s0'][1])),
+                       'noise_model_killed': 'rw.noise killed', 'noise_model': 'rw.noise raw',
+                       'replace_switches': 'rw.switches %s after' % kw.get('t', 0),
+                       'replace_switches_before': 'rw.switches %s before' % kw.get('t', 0)}[op]
+                model_raw = drv.ask1('%s || %s' % (req, ' | '.join(orig_lines)))
+                if model_raw.startswith('bad-') or model_raw.startswith('unknown'):
+                    raise common.Infra('driver: %s on %s' % (model_raw, orig_lines))
+                pm = parse_model_net(model_raw)
+                model_outs = {key_of(blank_sources(pm, orig_canon, op) if op in ('s_model', 'noise_model') else pm): []}
+            elif op == 'subs':
+                # substituting the values back must give the numeric netlist (`Cpt.mapVal` of the model)
+                model_outs = {key_of(orig_canon): []}
+            elif op == 'expand':
+                model_raw = drv.ask1('rw.expand || %s' % ' | '.join(c['lines']))
+                if model_raw.startswith('bad-'):
+                    chk.count('degenerate', 'expand-model:' + model_raw[:40])
+                    model_raw = None
             outcomes_seen = set()
             for hs in seeds:
                 rr = results[hs][c['id']]['results'][ri]
                 if 'err' in rr:
                     lkey = 'err:' + rr['err']
+                elif op in ('s_model', 'noise_model'):
+                    lkey = key_of(blank_sources(rr['canon'], orig_canon, op))
                 else:
                     lkey = key_of(rr['canon'])
                 outcomes_seen.add(lkey)
+                if op == 'expand' and model_raw is not None and 'err' not in rr:
+                    # C01's `expandRaw` on the raw lines against the printed expanded netlist (as sets of token lists)
+                    chk.coverage['correspondence']['compared'] += 1
+                    if raw_line_set(model_raw.split(' | ')) != raw_line_set(rr['text']):
+                        chk.coverage['correspondence']['disagreements'] += 1
+                        if len(disagreements) < 40:
+                            disagreements.append({'what': op, 'lines': c['lines'], 'kwargs': kw, 'python_hash_seed': hs,
+                                                  'lcapy': rr.get('text'), 'model': model_raw[:600]})
                 changed = lkey != key_of(orig_canon)
                 solved = orig_sol is not None and rr.get('sol') is not None
                 chk.case((tuple(c['lines']), op, json.dumps(kw, sort_keys=True), str(lkey)), nontrivial=(changed and solved) or (not strict and solved))
@@ -811,6 +963,40 @@ def run(chk, replay=None):
                                                   'lcapy': rr.get('text', rr.get('err')), 'model': model_raw[:600]})
                 if 'err' in rr:
                     chk.count('lcapy-error', '%s:%s' % (op, rr['err']))
+                    continue
+                if op == 'replace_switches' and 'before_canon' in rr:
+                    # no switching event between t and t2: the same netlist (theorem replace_switches_const)
+                    same = key_of(rr['t2_canon']) == lkey
+                    chk.count('switches', 'event-at-t' if rw.get('event') else ('const-between-events:' + ('ok' if same else 'differs')))
+                    if not rw.get('event') and not same:
+                        counterexamples += 1
+                        chk.counterexample({'rewrite': 'replace_switches', 'cause': 'not-constant-between-events'},
+                                           {'input': {'lines': c['lines'], 'rewrite': rw, 'pts': c['pts'], 's0': c['s0'],
+                                                      'features': c['features'], 'flavour': c['flavour']},
+                                            'lcapy': rr.get('text'), 'spec': 'C05.replace_switches_const'},
+                                           'replace_switches(t) differs at two instants with no switching event in between')
+                    if not rw.get('event'):
+                        # at an instant with no event the circuit just before t is the circuit at t
+                        b_same = key_of(rr['before_canon']) == lkey
+                        chk.count('switches', 'before-vs-after-no-event:' + ('same' if b_same else 'differs'))
+                        if not b_same:
+                            counterexamples += 1
+                            chk.counterexample({'rewrite': 'replace_switches', 'cause': 'before-rule-inverted'},
+                                               {'input': {'lines': c['lines'], 'rewrite': rw, 'pts': c['pts'], 's0': c['s0'],
+                                                          'features': c['features'], 'flavour': c['flavour']},
+                                                'lcapy': {'replace_switches': rr.get('text'), 'replace_switches_before': rr['before_canon']},
+                                                'spec': 'C05 replace_switches_noevent (full statement; the repaired rule satisfies it: replace_switches_noevent_repaired)'},
+                                               'replace_switches_before(t) differs from replace_switches(t) at an instant t with no switching event')
+                if op == 'ac_model' and 'ac_at_w0' in rr:
+                    chk.coverage['correspondence']['compared'] += 1
+                    ok = key_of(rr['ac_at_w0']) == key_of(rr['s_at_jw0'])
+                    chk.count('ac-model', 'equals-s_model-at-jw' if ok else 'differs-from-s_model-at-jw')
+                    if not ok:
+                        chk.coverage['correspondence']['disagreements'] += 1
+                        if len(disagreements) < 40:
+                            disagreements.append({'what': 'ac_model', 'lines': c['lines'], 'kwargs': kw, 'python_hash_seed': hs,
+                                                  'lcapy': rr['ac_at_w0'], 'model': 's_model at j w0: %s' % rr['s_at_jw0']})
+                if rw.get('no_solve'):
                     continue
                 if rw.get('history'):
                     chk.count('history', 'same-as-fresh' if key_of(rr['fresh_canon']) == lkey else 'differs-from-fresh')
